@@ -227,6 +227,30 @@ func instrList(fset *token.FileSet, list []ast.Stmt, n *int) []ast.Stmt {
 					continue
 				}
 			}
+			// x, y := f(...): same, without a block (the variables are declared in this scope); the
+			// stored-to variable may be a heap cell that other goroutines read (e.g. `err` whose
+			// address is published)
+			if x.Tok == token.DEFINE && len(x.Rhs) == 1 {
+				if _, isCall := x.Rhs[0].(*ast.CallExpr); isCall {
+					var tmps []ast.Expr
+					for range x.Lhs {
+						*n++
+						tmps = append(tmps, ast.NewIdent(fmt.Sprintf("_vs%d", *n)))
+					}
+					y := yieldStmt(fset, s.Pos()).(*ast.ExprStmt)
+					lit := y.X.(*ast.CallExpr).Args[0].(*ast.BasicLit)
+					id, _ := strconv.Unquote(lit.Value)
+					post := &ast.ExprStmt{X: &ast.CallExpr{
+						Fun:  &ast.SelectorExpr{X: ast.NewIdent("vsched"), Sel: ast.NewIdent("Yield")},
+						Args: []ast.Expr{&ast.BasicLit{Kind: token.STRING, Value: strconv.Quote(id + "#store")}},
+					}}
+					out = append(out, y,
+						&ast.AssignStmt{Lhs: tmps, Tok: token.DEFINE, Rhs: x.Rhs},
+						post,
+						&ast.AssignStmt{Lhs: x.Lhs, Tok: token.DEFINE, Rhs: tmps})
+					continue
+				}
+			}
 		}
 		if !s.Pos().IsValid() {
 			out = append(out, s)
